@@ -28,8 +28,14 @@ def inline_builtin(expr: Expression, rules: Mapping[str, Rule]) -> Expression:  
 
 def inline_silent_rules(expr: Expression, rules: Mapping[str, Rule]) -> Expression:
     """Inline silent rules."""
-    # A tagged reference is not inlined: the tag would be lost.
-    if isinstance(expr, Identifier) and not expr.tag:
+    # A tagged reference is not inlined: the tag would be lost. Neither is a
+    # reference to WHITESPACE or COMMENT: those rules are atomic by name, which
+    # their body alone is not.
+    if (
+        isinstance(expr, Identifier)
+        and not expr.tag
+        and expr.value not in ("WHITESPACE", "COMMENT")
+    ):
         rule = rules.get(expr.value)
         if rule and rule.modifier & SILENT:
             return rule.expression
